@@ -9,13 +9,19 @@ LEVEL_TEXT = ("Theorems (Lean 4, any linearly ordered field): on a live supply t
               "follow the sign of vo, currents do not depend on the polarity. The model is tied to the code on every run: for hundreds "
               "of random trees the table cells Vin/Vout/Iin/Iout/Parent are re-assembled by the model from the implementation's own "
               "(v,i) and must agree to 1e-9, one more model sweep must reproduce (v,i) within the solver's exit test, and the "
-              "documented laws are evaluated exactly on every returned row (the failing-input search). Partial: negative Source "
+              "documented laws are evaluated exactly on every returned row (the failing-input search). End to end (Props/C01Conv): for whatever solvePhase returns, every single-supply row, every Source row and the PMux row deviates from its documented voltage law by at most atol + vtol*|law| and from its current law by at most atol + itol*|law| (`solve_row_voltage_law`, `solve_row_current_law`, `solve_source_row_*`, `solve_mux_row_laws`; the current law is evaluated at the once-more-swept supply voltage, which is within vtol of the row's Vin - stated, not hidden), and exactly in an exact steady state (`steady_row_exact`). Partial: negative Source "
               "with series resistance (finding F01) is excluded by hypothesis and reported as KNOWN-FINDING.")
 LEVEL_NOTE = "Proof covers the law level; tree-level clauses are checked by correspondence + oracle on generated systems."
 MODULE = "SysLoss.Props.C01"
+MODULES = ["SysLoss.Props.C01", "SysLoss.Props.C01Conv"]
 THEOREMS = ["SysLoss.C01." + t for t in (
     "volt_refines_spec_partial", "curr_refines_spec", "row_linkage", "row_root", "sweep_args_are_row",
-    "mirror_passthrough", "regulated_ignores_input_sign")]
+    "mirror_passthrough", "regulated_ignores_input_sign",
+    # Props/C01Conv: end to end - what solve() returns obeys the documented laws within the exit tolerance
+    "converged_iff", "solvePhase_sizes", "solvePhase_exit", "ioOf_indep", "sweep_cell_is_law",
+    "solve_row_voltage_law", "solve_row_current_law", "solve_row_current_law_rowIout_partial", "steady_row_exact",
+    "solve_source_row_voltage_law_partial", "solve_source_row_current_law", "solve_source_row_voltage_law_full_fails",
+    "mux_volt_eq", "mux_row_cells", "solve_mux_row_laws")]
 RULE = ("random power trees (1-3 sources, <=24 nodes, all 11 kinds, 25% tabulated parameters, both polarities, "
         "<=1 PMux) built and solved through the public API with vtol=itol=1e-10 or the defaults; non-trivial = "
         "solved successfully and has >= 3 components; distinct by canonical description")
